@@ -57,7 +57,7 @@ RULES.update({
     "drawn log-uniformly in 1e-6..1e6 (half of the named worlds) or 1e-2..1e2 (covariances: half with per-dimension variances of independent "
     "magnitude, judged entrywise relative to sqrt(cov_ii cov_jj)). 70 % of the worlds carry a PROCESS HISTORY: 0-3 operations before the model is built and "
     "0-3 after the run (public-API calls that fail - flow constructors with bad arguments, shape mismatches, fit_to_data(val_prop=2) -, rejected invalid "
-    "constructions, successful constructions), after which a panel of 20 invalid constructor calls (non-positive scale, weights, degrees of freedom; "
+    "constructions, successful constructions), after which a panel of 41 invalid constructor calls (each class also as numpy / python-scalar / float64 arguments, batched with one bad entry, -0.0) (non-positive scale, weights, degrees of freedom; "
     "maxval <= minval; non-permutations) must each still be rejected with an error.",
     "C09": _B_COMMON + "C09 worlds are masked-autoregressive and coupling flows (dim 1-4, width 1-5 incl. width<dim, depth 0-2, "
     "conditional or not, affine or spline transformer, both orientations) trained with teleport faults so masked-out raw weights take "
